@@ -87,6 +87,16 @@ theorem resolveSource_spec {w : W} (h : WInv w) (k : Path) :
       rw [hbe, hb]
       exact ⟨w', by simp, hw', hbe, hn, hf⟩
 
+theorem rename_guard (fl : Wrapper) (src dst : Path) :
+    ((selfRenameGuard fl && decide (src = dst)) = true) = (src = dst) := by
+  simp [gen_self_rename_guard]
+
+theorem rename_guard_self (fl : Wrapper) : ((selfRenameGuard fl && decide True) = true) = True := by
+  simp [gen_self_rename_guard]
+
+theorem rename_order_std (fl : Wrapper) : (renameOrder fl = [RenamePhase.copy, RenamePhase.deleteSource]) = True := by
+  simp [gen_rename_order]
+
 theorem applyPrefix_nil (now : Nat) (be : Backend) (n : Nat) : applyPrefix now be [] n = be := by
   simp [applyPrefix, applySteps]
 
@@ -114,21 +124,22 @@ theorem applyPrefix_append (now : Nat) (be : Backend) (a b : List Step) (n : Nat
 
 /-- The shape of the plan of a write (put / multipart): refused without touching the backend, or the
 three-phase commit in the generated order. -/
-theorem planWrite_steps (w : W) (order : List CommitPhase) (now : Nat) (k : Path) (mode : PutMode) (data : Bytes) :
-    (planWrite w order now k mode data).steps = [] ∨
+theorem planWrite_steps (w : W) (order : List CommitPhase) (seeded : Bool) (now : Nat) (k : Path) (mode : PutMode) (data : Bytes) :
+    ((planWrite w order seeded now k mode data).steps = [] ∧ (planWrite w order seeded now k mode data).cache = w.cache ∧
+      ∃ e, (planWrite w order seeded now k mode data).out = .err e) ∨
     ∃ d : Doc, d.gen = some ⟨now, w.nextId⟩ ∧ d.size = data.length ∧
-      d.etag = some (mkPutTok w.flavor ⟨now, w.nextId⟩ data) ∧ d.time = some now ∧
-      (planWrite w order now k mode data).steps =
+      d.etag = some (mkPutTok seeded ⟨now, w.nextId⟩ data) ∧ d.time = some now ∧
+      (planWrite w order seeded now k mode data).steps =
         commitSteps order [.putBlob (.gen k ⟨now, w.nextId⟩) data] (.putDoc k d)
           (reclaimOf ((curOf w.be k).doc?.map (fun c => payloadPath k c.gen)) k d) ∧
-      (planWrite w order now k mode data).out = .put d.etag ∧
-      (planWrite w order now k mode data).cache = aset w.cache k d := by
+      (planWrite w order seeded now k mode data).out = .put d.etag ∧
+      (planWrite w order seeded now k mode data).cache = aset w.cache k d := by
   unfold planWrite
   simp only []
   split
-  · exact Or.inl rfl
+  · exact Or.inl ⟨rfl, rfl, _, rfl⟩
   · split
-    · exact Or.inl rfl
+    · exact Or.inl ⟨rfl, rfl, _, rfl⟩
     · exact Or.inr ⟨_, rfl, rfl, rfl, rfl, rfl, rfl, rfl⟩
 
 end AndaVerif.ObjStore
